@@ -40,6 +40,8 @@ type HarnessResult struct {
 	Truncated   bool
 	FnInstr     map[string]int
 	ForkSites   map[string]int
+	UnknownMsgs map[string]int
+	SecondOp    map[string]int
 }
 
 func newExec(w *World, cfg *Config) (*Exec, error) {
@@ -161,7 +163,7 @@ func (ex *Exec) panicViolationKind(kind, msg string) {
 // explore runs all paths of one harness with nw workers.
 func explore(w *World, cfg *Config, entry *ssa.Function, nw int, deadline time.Time) (*HarnessResult, error) {
 	hr := &HarnessResult{Name: cfg.Name, Cfg: cfg, AbortMsgs: map[string]int{}, Reached: map[string]int{},
-		Funcs: map[string]int{}, Intercepts: map[string]int{}, Assumes: map[string]bool{}, FnInstr: map[string]int{}, ForkSites: map[string]int{}}
+		Funcs: map[string]int{}, Intercepts: map[string]int{}, Assumes: map[string]bool{}, FnInstr: map[string]int{}, ForkSites: map[string]int{}, UnknownMsgs: map[string]int{}, SecondOp: map[string]int{}}
 	t0 := time.Now()
 	lastProg := t0
 	progress := os.Getenv("VERIF_PROGRESS") != ""
@@ -238,6 +240,12 @@ func explore(w *World, cfg *Config, entry *ssa.Function, nw int, deadline time.T
 				}
 				for k, v := range res.Intercepts {
 					hr.Intercepts[k] += v
+				}
+				for _, m := range res.UnknownMsgs {
+					hr.UnknownMsgs[m]++
+				}
+				for _, m := range res.SecondOpinion {
+					hr.SecondOp[m]++
 				}
 				for k, v := range res.ForkSites {
 					hr.ForkSites[k] += v
